@@ -23,6 +23,7 @@ type eqNode struct {
 	Op   int      `json:"op,omitempty"`
 	Sym  string   `json:"sym,omitempty"`  // stacks: operator symbol (both sides of a comparison carry the same one)
 	Fold bool     `json:"fold,omitempty"` // stacks: case folding on
+	Lock int      `json:"lock,omitempty"` // stacks: 1 mutex enabled, 2 read-only, 3 both (set once the content is in place; both sides alike)
 	Note string   `json:"note,omitempty"` // what was mutated
 	Same bool     `json:"same,omitempty"` // the mutation must NOT be noticed (unexported field)
 	M    int      `json:"-"`              // construction history used by build (see fill)
@@ -357,6 +358,12 @@ func (n eqNode) build() any {
 		if n.Fold {
 			s.SetFold(true)
 		}
+		if n.Lock&1 != 0 {
+			s.SetMutex()
+		}
+		if n.Lock&2 != 0 {
+			s.SetReadOnly(true)
+		}
 		if n.T == "alias" {
 			return StackAlias(s)
 		}
@@ -408,6 +415,9 @@ func (n eqNode) String() string {
 	}
 	if n.Fold {
 		s += "~fold"
+	}
+	if n.Lock > 0 {
+		s += fmt.Sprintf("{lock=%d}", n.Lock)
 	}
 	if n.Cap > 0 {
 		s += fmt.Sprintf("/%d", n.Cap)
@@ -681,7 +691,7 @@ func (n eqNode) mutants() []eqNode {
 			// ... and that pointers are flattened at any depth (a *int 7 is the leaf value 7); which hollow
 			// (zero-valued) handle sits where is not a difference the statement speaks about; structs are
 			// documented to be compared by exported fields, their order and values (not by type name)
-			norm := strings.NewReplacer("deep-struct-by-value", "deep-struct", "*complex64", "complex64", "ptr3depth4", "ptr3", "ptr3depth6", "ptr3", "array", "slice", "&", "", "pstruct", "struct", "alias:", "stack:", "*[3]byte", "bytes", "[3]byte", "bytes", "[]byte", "bytes", "zero-StackAlias", "zero", "zero-Stack", "zero", "zero-Condition", "zero")
+			norm := strings.NewReplacer("{lock=1}", "", "{lock=2}", "", "{lock=3}", "", "deep-struct-by-value", "deep-struct", "*complex64", "complex64", "ptr3depth4", "ptr3", "ptr3depth6", "ptr3", "array", "slice", "&", "", "pstruct", "struct", "alias:", "stack:", "*[3]byte", "bytes", "[3]byte", "bytes", "[]byte", "bytes", "zero-StackAlias", "zero", "zero-Stack", "zero", "zero-Condition", "zero")
 			if norm.Replace(n.Kids[i].String()) != norm.Replace(n.Kids[i+1].String()) {
 				m5 := cloneNode(n)
 				m5.Kids[i], m5.Kids[i+1] = m5.Kids[i+1], m5.Kids[i]
@@ -785,6 +795,15 @@ func c05Check(c *Ctx, n eqNode, count bool) {
 		var res [2]bool
 		for dir, pair := range [][2]any{{a, mv}, {mv, a}} {
 			err, p := isEqualErr(pair[0], pair[1])
+			if p == "" {
+				// the same question once more: the verdict does not depend on having been asked before
+				err2, p2 := isEqualErr(pair[0], pair[1])
+				if p2 != "" {
+					p = "(second identical call) " + p2
+				} else if (err == nil) != (err2 == nil) {
+					c.Violation("verdict-changes-when-repeated:"+mutClass(m.Note), fmt.Sprintf("IsEqual (direction %d) for %s vs mutant %s [%s] answers %v, then %v", dir, n, m, m.Note, err, err2), m, size)
+				}
+			}
 			if count {
 				c.Transitions.Add(1)
 			}
@@ -906,6 +925,15 @@ func c05Trees(c *Ctx) []eqNode {
 		}
 	}
 	trees = append(trees, eqNode{T: "stack", Kind: "AND"}, eqNode{T: "stack", Kind: "BASIC", Cap: 3})
+	// locking and the read-only flag (alone and together) on the root, on a nested stack, on a Condition's
+	// expression: neither has a say in what is equal, and comparing takes nothing it does not give back
+	for lock := 1; lock <= 3; lock++ {
+		in := eqNode{T: "stack", Kind: "OR", Lock: lock, Kids: []eqNode{{T: "prim", V: "a"}, {T: "prim", V: 7, Kind: "int"}}}
+		trees = append(trees, in,
+			eqNode{T: "stack", Kind: "AND", Kids: []eqNode{{T: "prim", V: "x"}, in, leaves[lock]}},
+			eqNode{T: "stack", Kind: "LIST", Lock: lock, Kids: []eqNode{in, {T: "cond", Kw: "lk", Op: 2, Kids: []eqNode{in}}}},
+			eqNode{T: "cond", Kw: "top", Op: 1, Kids: []eqNode{in}})
+	}
 	return trees
 }
 
